@@ -277,14 +277,32 @@ def one_run(rec, lib, rnd, d, dir_mode, st, inproc):
         return
     if events is not None:
         bad = []
+
+        def rel_of(path):
+            return os.path.relpath(os.path.realpath(os.path.join(d, path)), os.path.realpath(d))
+
+        def transient(path):
+            # a scratch file that did not exist before the run and does not exist after it (e.g. "<output>.tmp" renamed onto
+            # the output): "nothing else is created" is about what the run leaves behind
+            r = rel_of(path)
+            return r not in before and r not in after and not r.startswith("..")
         for ev in events:
             if ev[0] in ("open-for-write",):
-                p = os.path.realpath(os.path.join(d, ev[1]))
-                relp = os.path.relpath(p, os.path.realpath(d))
-                if relp in expected_new:
+                if rel_of(ev[1]) in expected_new or transient(ev[1]):
                     continue
             elif ev[0] in ("os.chdir",):
                 continue
+            elif ev[0] == "os.rename" and transient(ev[1]) and rel_of(ev[2]) in expected_new:
+                continue
+            elif ev[0] == "os.remove" and transient(ev[1]):
+                continue
+            elif ev[0] in ("rename", "renameat", "renameat2", "unlink", "unlinkat"):
+                # strace form: the quoted paths of the call
+                paths = [strace_path(x) for x in re.findall(r'"((?:[^"\\]|\\.)*)"', ev[1])]
+                if ev[0].startswith("rename") and len(paths) == 2 and transient(paths[0]) and rel_of(paths[1]) in expected_new:
+                    continue
+                if ev[0].startswith("unlink") and len(paths) == 1 and transient(paths[0]):
+                    continue
             bad.append(ev)
         if bad:
             rec.violation(f"the run performed file-system writes other than creating the _cm.css files and the report: {bad[:4]}", case)
@@ -329,6 +347,13 @@ def one_run(rec, lib, rnd, d, dir_mode, st, inproc):
 _SYSC = re.compile(r"^(\d+\s+)?(\w+)\((.*)\)\s+=\s+(-?\d+|\?)")
 
 
+def strace_path(path):
+    try:   # strace prints non-ASCII bytes as octal escapes
+        return path.encode("latin-1", "backslashreplace").decode("unicode_escape").encode("latin-1").decode("utf-8")
+    except (UnicodeError, ValueError):
+        return path
+
+
 def run_strace(args, cwd):
     log = os.path.join(cwd, "..", "strace-%d.log" % os.getpid())
     boot = ("import sys; sys.dont_write_bytecode=True; sys.path.insert(0, %r); from cm_colors.cli.main import main; main()" % env.SRC)
@@ -352,11 +377,7 @@ def run_strace(args, cwd):
                 if name in ("open", "openat", "creat"):
                     if any(fl in argtxt for fl in ("O_WRONLY", "O_RDWR", "O_CREAT", "O_TRUNC", "O_APPEND")) or name == "creat":
                         pm = re.search(r'"((?:[^"\\]|\\.)*)"', argtxt)
-                        path = pm.group(1) if pm else argtxt
-                        try:   # strace prints non-ASCII bytes as octal escapes
-                            path = path.encode("latin-1", "backslashreplace").decode("unicode_escape").encode("latin-1").decode("utf-8")
-                        except (UnicodeError, ValueError):
-                            pass
+                        path = strace_path(pm.group(1) if pm else argtxt)
                         if path in ("/dev/null", "/dev/tty") or path.startswith("/proc/") or path.startswith("/dev/"):
                             continue
                         events.append(("open-for-write", path, argtxt[-60:]))
